@@ -1294,6 +1294,20 @@ func (x *Exec) evalSpecCall(e *ast.CallExpr, st *State) (Value, types.Type) {
 				_, isFunc := obj.(*types.Func)
 				_, isType := obj.(*types.TypeName)
 				isSpec = isPred || isSpecFn || isFunc || isType || (!inNames && x.conScope[id.Name] == nil && !x.openCaptured)
+				// a function-typed local in scope at the literal / loop the clause belongs to
+				if x.inlineLitPos.IsValid() && !isPred && !isSpecFn {
+					if sc := x.pkg.Types.Scope().Innermost(x.inlineLitPos); sc != nil {
+						if _, o := sc.LookupParent(id.Name, x.inlineLitPos); o != nil {
+							if v, ok := o.(*types.Var); ok {
+								if _, isSig := v.Type().Underlying().(*types.Signature); isSig {
+									if _, has := st.env[o]; has {
+										isSpec = false
+									}
+								}
+							}
+						}
+					}
+				}
 				switch id.Name {
 				case "implies", "iff", "ite", "old", "forall", "exists", "len", "has", "fresh", "substr", "nth", "forallS", "existsS", "forallR", "existsR", "atSelect", "calledAt", "tracedAt", "rvInt", "rvFloat", "rvComplex", "rvString", "rvBool", "rvIface":
 					isSpec = true
